@@ -24,6 +24,19 @@ from usim._core.loop import Interrupt
 KINDS = ('cancel', 'interrupt', 'close')
 
 
+def made(case, factory):
+    """the object under test: made by its constructor - or, for every fifth case, a deep copy
+    of an idle template object, the way a model that is cloned per replication / per node gets
+    its primitives (`copy.deepcopy(node_template)`); clones are objects of their own"""
+    if case.get('index', 0) % 5 != 2:
+        return factory()
+    import copy
+    template = factory()
+    first, second = copy.deepcopy(template), copy.deepcopy(template)
+    del first
+    return second
+
+
 class Strike(Exception):
     """raised by the striker to abort a victim's holder scope"""
 
